@@ -20,6 +20,17 @@ def main():
               ([["kilo", "meter", 1]], [[None, "mile", 1]]), ([[None, "liter", -1]], [[None, "gill", -1]]),
               ([[None, "joule", 1]], [["kilo", "watt", 1], [None, "hour", 1]]), ([[None, "acre", 1]], [[None, "meter", 2]]),
               ([[None, "meter", 1], [None, "second", -1]], [[None, "mile", 1], [None, "hour", -1]])]
+    # every declared equivalence of the shipped table, asked directly in both directions (the answer is the declared number only if it agrees
+    # with what the other declarations make of the two units: judged against the sizes like every other case)
+    env_name = {i: n for i, _d, n in exp0["env"]}
+    for d_ in S.decls:
+        if d_.get("kind") != "equate": continue
+        try:
+            sa_, sb_ = ([[None, env_name[k], e] for k, e in d_[side][1]["f"]] for side in ("a", "b"))
+        except KeyError: continue
+        if sa_ and sb_ and not isinstance(d_["a"][1]["p"], dict) and not isinstance(d_["b"][1]["p"], dict):
+            corpus += [(sa_, sb_), (sb_, sa_)]
+    nship += len(corpus)
     cases = []
     for a, b in corpus:
         if all(n in sp.units for _, n, _ in a + b):
